@@ -19,7 +19,7 @@ MaxTypical == 1460
 ClausesOf ==
   [C01 |-> {"C01_RejectOnlyTooLong", "C01_MustRejectTooLong", "C01_Decodable", "C01_Pointers", "C01_RoundTrip", "C01_LibraryAgrees",
             "C01_NoOtherError", "C01_InOrderOnce"},
-   C14 |-> {"C14_Abs", "C14_Typical", "C14_Counts", "C14_Partition", "C14_TC", "C14_Header"}]
+   C14 |-> {"C14_Abs", "C14_Typical", "C14_Counts", "C14_Partition", "C14_TC", "C14_Header", "C14_WellFormed"}]
 Own(clause) == D.own = "ALL" \/ clause \in ClausesOf[D.own]
 Bad(cond, clause) == cond /\ Own(clause)
 
@@ -29,7 +29,8 @@ NEntries(p) == Len(p.qs) + Len(p.an) + Len(p.ns) + Len(p.ar)
 
 PktClause(c, p, last) ==
   IF ~p.ok /\ Bad(p.present >= 0 /\ p.hdrTotal # p.present, "C14_Counts") THEN "C14_Counts"   \* decodable once the counts are corrected
-  ELSE IF ~p.ok THEN (IF Own("C01_Decodable") THEN "C01_Decodable" ELSE "")       \* nothing else can be said about it
+  \* (C14: "a well-formed sequence rather than a corrupt or oversized packet")
+  ELSE IF ~p.ok THEN (IF Own("C01_Decodable") THEN "C01_Decodable" ELSE IF Own("C14_WellFormed") THEN "C14_WellFormed" ELSE "")
   ELSE IF Bad(p.len > MaxAbs, "C14_Abs") THEN "C14_Abs"
   ELSE IF Bad(p.len > MaxTypical /\ NEntries(p) # 1, "C14_Typical") THEN "C14_Typical"
   ELSE IF Bad(p.counts # <<Len(p.qs), Len(p.an), Len(p.ns), Len(p.ar)>>, "C14_Counts") THEN "C14_Counts"
